@@ -237,7 +237,13 @@ def main(argv):
     # quick tier: the same sweep stands in (sampled, labelled so) when the changed code left the verifier's language subset and no
     # obligation could be generated for it -- the check then still exits 1 if a concrete failing input exists, and 2 otherwise
     out_of_reach = [u for u in undecided if re.search(r': (frontend|internal|lost anchor)', u)]
-    do_sweep = (tier == 'thorough' or bool(out_of_reach)) and not os.environ.get('VERIF_NO_REPLAY')
+    # ... and when a function that is only *assumed* here (contract-only stub: outside the verifier's reach, DESIGN 3) has changed: its
+    # contract is not re-proved by anything, so the sampled sweep is the only thing that looks at the new code at all
+    base_sha_all = runner.baseline_fn_sha()
+    body_fns = {e['function'] for e in fns_contract}
+    changed_assumed = sorted({e['function'] for e in fns_assumed
+                              if e['function'] not in body_fns and base_sha_all.get(e['function']) not in (None, e['sha256'])})
+    do_sweep = (tier == 'thorough' or bool(out_of_reach) or bool(changed_assumed)) and not os.environ.get('VERIF_NO_REPLAY')
     if do_sweep and replaymod.build():
         files = replaymod.corpus()
         try:
@@ -257,7 +263,7 @@ def main(argv):
             known_inputs = replaymod.baseline_failures(pid)
             use = [f for f in files if os.path.relpath(f, asm.REPO if f.startswith(asm.REPO) else VERIF) not in known_inputs]
             sweep_hits = replaymod.run_oracle(pid, use, extra=['--max', '200'])
-            bounded.append({'harness': 'oracle sweep' + (' (stand-in: changed code outside the verifier\'s reach)' if tier != 'thorough' else ''), 'kind': 'sampled', 'target': 'statement of %s checked by parsing input and output with typst-syntax' % pid,
+            bounded.append({'harness': 'oracle sweep' + ((' (stand-in: changed code outside the verifier\'s reach%s)' % (': ' + ', '.join(x.split('::', 1)[-1] for x in changed_assumed[:4]) if changed_assumed else '')) if tier != 'thorough' else ''), 'kind': 'sampled', 'target': 'statement of %s checked by parsing input and output with typst-syntax' % pid,
                             'bound': '%d corpus inputs x widths 0/20/40/80/120 x tabs 2/4 (%d inputs skipped: they fail on the unchanged tree, see replay/baseline_failures.json)' % (len(use), len(files) - len(use)),
                             'status': 'failed' if sweep_hits else 'ok', 'seconds': round(time.time() - t1, 1)})
         elif pid in ('C14', 'C15', 'C16'):
@@ -365,6 +371,7 @@ def main(argv):
             'known_findings_printed': [k['id'] for k in known_printed],
             'undecided': undecided,
             'front_end_workarounds': recoveries,
+            'changed_functions_outside_contract': changed_assumed,
             'assumption_validation': assumption_validation,
             'failures_tagged_for_other_properties': sorted({f.obligation for f in other_failures}),
             'solver_time_ms': round(sum(r['main'].smt_ms for r in results.values()), 1),
